@@ -9,6 +9,14 @@ TB = ("trusted base: rustc's MIR construction and Instance resolution for the re
       "mir-opt-level 0, overflow checks on), the fact extractor /verif/driver, std/rpds/arcstr behaving as documented")
 
 CLAIMS = {
+ 'C17': dict(
+   technique="MIR lock-step (paired-write) analysis of code/debug_map, fetch-path and error-exit path analysis, guard control-dependence (custom extractor, Python rules)",
+   text=("Static: line/column arithmetic is value-level and not decided; the mechanism that makes the right token available is. Every function "
+         "that changes the length of code applies the same change with the same bound to debug_map on the same paths; tokens are pulled from the "
+         "lexer in one place and every fetch path records last_token; every Err of a step passes the location recorder while ip still points at "
+         "the failing instruction; every Err of build1 passes the build mapper; both recorders write only when no location is recorded yet "
+         "(innermost wins); the line/column scan is driven by a character iterator."),
+   ref='§3 C17'),
  'C16': dict(
    technique="MIR natural-loop progress analysis (cycle-without-advance search) + who-may-write on Lex fields (custom extractor, Python rules)",
    text=("Static, all inputs: decides totality and tiling, not literal values. Lex.pos is written only by take_char (+len_utf8 of the char "
